@@ -167,6 +167,10 @@ WILD = {
     '~other': ('##other', frozenset('o')),
     '~tns': ('##targetNamespace', frozenset('abchmnx')),
     '~local': ('##local', frozenset('l')),
+    # XSD 1.1 negative constraints (rendered as notNamespace; XSD 1.0 refuses them)
+    '~notT': ('not:##targetNamespace', frozenset('ol')),
+    '~notL': ('not:##local', frozenset('abchmnxo')),
+    '~notTL': ('not:##targetNamespace ##local', frozenset('o')),
 }
 
 
@@ -194,7 +198,10 @@ def leaf_xsd(n):
     """Leaf renderer for render(): understands the labels above."""
     label, occ = n[4], occ_attrs(n[1], n[2])
     if n[0] == 'any':
-        return '<xs:any namespace="%s" processContents="lax"%s/>' % (WILD[label][0], occ)
+        ns = WILD[label][0]
+        if ns.startswith('not:'):
+            return '<xs:any notNamespace="%s" processContents="lax"%s/>' % (ns[4:], occ)
+        return '<xs:any namespace="%s" processContents="lax"%s/>' % (ns, occ)
     if label in ('H', 'Habs'):
         return '<xs:element ref="t:%s"%s/>' % ('h' if label == 'H' else 'habs', occ)
     if label.startswith('@'):
